@@ -107,6 +107,8 @@ class C17(CheckBase):
                         boundary = vlen
                         pend = vlen + delta
                         pstart = max(3, pend - nsec)
+                        if pstart > 1023:
+                            pstart = 1000      # 10-bit start sector: reach the boundary with a long file
                         plen = max(1, (pend - pstart) * 256 - case["rem"])
                         inb = max(0, min(plen, (vlen - pstart) * 256))
                         ents.insert(0, _ent(b"PROBE", pstart, plen, 99))
